@@ -113,6 +113,42 @@ def directed():
     return out
 
 
+def fill_sweep():
+    """Same-device Remap / Distribute of a live buffer at every fill level of small devices (8/16/32 pages): a fresh
+    driver per case (the allocator's free-list mechanics depend on what was popped and appended before), two
+    processes; afterwards everything that is left is allocated (Probe by the other process, then the final drain):
+    frames pairwise disjoint, table = live buffers, free + live = capacity."""
+    A, out = 'Alloc', []
+
+    def filler(f, ctx=1):
+        ops = []
+        while f > 0:
+            n = min(3, f)
+            ops.append({'a': A, 'ctx': ctx, 'dev': 1, 'n': n, 'rem': f % 3})
+            f -= n
+        return ops
+    for C in (8, 16, 32):
+        for k in ((2, 3) if C == 8 else (2, 3, 4) if C == 16 else (2, 4)):
+            for f in range(0, C - (k + 1) - k + 1):
+                fill = filler(f)
+                buf = [{'a': A, 'ctx': 0, 'dev': 1, 'n': k + 1}]
+                pre = fill + buf if f % 2 == 0 else buf + fill
+                b = len(fill) + 1 if f % 2 == 0 else 1
+                ops = pre + [{'a': 'Remap', 'ctx': 0, 'b': b, 'off': f % 2, 'n': k, 'dev': 1},
+                             {'a': 'Probe', 'ctx': 1, 'dev': 1}]
+                out.append({'ps': 16, 'gpus': [C, 4], 'unified': [], 'ctxs': [1, 2], 'ops': ops, 'drain': True,
+                            'tag': 'sweep/remap/C%d/k%d/f%d' % (C, k, f)})
+    for k in (2, 3):   # Distribute over [1, 2] of a buffer that lies on GPU 1: the chunk for GPU 1 stays on its device
+        C = 16
+        for f in range(0, C - 3 * k + 1):
+            fill = filler(f)
+            ops = fill + [{'a': A, 'ctx': 0, 'dev': 1, 'n': 2 * k}, {'a': 'Dist', 'ctx': 0, 'b': len(fill) + 1, 'gpus': [1, 2]},
+                          {'a': 'Probe', 'ctx': 1, 'dev': 1}]
+            out.append({'ps': 16, 'gpus': [C, 8], 'unified': [], 'ctxs': [1, 2], 'ops': ops, 'drain': True,
+                        'tag': 'sweep/dist/C%d/k%d/f%d' % (C, k, f)})
+    return out
+
+
 def buddy_directed():
     A, F = 'Alloc', 'Free'
     return [
@@ -400,8 +436,15 @@ def run(ctx, selftest=False):
     validate(ctx, t1, scen)
     all_parts += vlib.split_traces(t1)
 
+    # 2b. fill-level sweep: same-device Remap / Distribute on small devices, from empty to full
+    sw = fill_sweep()
+    ts, stats_sw = run_scenarios(ctx, drv, sw, 'sweep')
+    ctx.log('fill-level sweep: %d histories: %s' % (len(sw), {k: v for k, v in stats_sw.items() if k in ('events', 'ops', 'ops_skipped', 'traces_crashed')}))
+    validate(ctx, ts, sw)
+    all_parts += vlib.split_traces(ts)
+
     # 3. code -> spec: seeded random histories generated against the live state
-    nrand = 1505 if thorough else 126    # a multiple of the 7 profiles
+    nrand = 1504 if thorough else 128    # a multiple of the 8 profiles
     t2 = os.path.join(ctx.scratch, 'rand.ndjson')
     sdump = os.path.join(ctx.scratch, 'rand_scen.json')
     args = ['-random', nrand, '-ops', 60 if thorough else 40, '-seed', ctx.seed, '-dumpscen', sdump, '-out', t2]
@@ -446,8 +489,8 @@ def run(ctx, selftest=False):
     ex = all_parts[-1][1]
     ctx.sample({'trace_excerpt': [{k: v for k, v in r.items()} for r in ex[:4]]})
     ctx.cov.update({'evaluations': len(all_parts), 'distinct_nontrivial': len(distinct_nt),
-                    'events_validated': stats['events'] + stats2['events'] + stats3['events'],
-                    'api_calls': stats['ops'] + stats2['ops'] + stats3['ops'],
+                    'events_validated': stats['events'] + stats2['events'] + stats3['events'] + stats_sw['events'],
+                    'api_calls': stats['ops'] + stats2['ops'] + stats3['ops'] + stats_sw['ops'],
                     'histories_ended_by_driver_panic': stats.get('traces_crashed', 0) + stats2.get('traces_crashed', 0)})
 
     # 4. binding self-test on the histories of the clean profile (single process, single pages: no known defect)
